@@ -117,6 +117,12 @@ func (c *Ctx) Check(cond bool, fn *ssa.Function, kind string, pos token.Pos, okW
 func (c *Ctx) Anchor(rel, recv, name string) *ssa.Function {
 	fn := c.P.Func(rel, recv, name)
 	if fn == nil || fn.Blocks == nil {
+		// inlined into its only caller? then the caller is read in its place (tables/anchor_hosts.txt)
+		if host := c.anchorHost(rel, recv, name); host != nil {
+			c.Anchors++
+			c.Funcs[FuncName(host)] = true
+			return host
+		}
 		if c.rule == nil {
 			c.StartRule("anchors", "anchors resolve", 0)
 		}
@@ -385,3 +391,40 @@ var VerifRoot = "/verif"
 
 // VerifDir returns the directory that holds the frozen tables.
 func (c *Ctx) VerifDir() string { return VerifRoot }
+
+// anchorHost looks a missing anchor up in tables/anchor_hosts.txt.
+func (c *Ctx) anchorHost(rel, recv, name string) *ssa.Function {
+	b, err := os.ReadFile(filepath.Join(VerifRoot, "tables", "anchor_hosts.txt"))
+	if err != nil {
+		return nil
+	}
+	for _, line := range strings.Split(string(b), "\n") {
+		line = strings.TrimSpace(line)
+		if line == "" || strings.HasPrefix(line, "#") {
+			continue
+		}
+		parts := strings.Split(line, "=>")
+		if len(parts) != 2 {
+			continue
+		}
+		l, r := strings.Fields(parts[0]), strings.Fields(parts[1])
+		if len(l) != 3 || len(r) != 2 {
+			continue
+		}
+		dash := func(x string) string {
+			if x == "-" {
+				return ""
+			}
+			return x
+		}
+		if dash(l[0]) != rel || dash(l[1]) != recv || l[2] != name {
+			continue
+		}
+		host := c.P.Func(rel, dash(r[0]), r[1])
+		if host != nil && host.Blocks != nil {
+			c.Table(fmt.Sprintf("anchor %s.%s.%s no longer exists: read in %s, the function it was inlined into (tables/anchor_hosts.txt)", rel, recv, name, FuncName(host)))
+			return host
+		}
+	}
+	return nil
+}
